@@ -262,7 +262,10 @@ Definition incr_selected (pts : N) (pmax : option N) (e : N * (content * N)) : b
   | None => modified
   end.
 
-Definition create_incr_files (d : sdir) (pts : N) (pmax : option N) : res created :=
+(* csnap: the newest snapshot the parent chain carries (chain_snapshot below).  Since /repo 0a20737 the
+   incremental ships the snapshot named by the current MANIFEST when the chain does not carry it, and
+   records snapshot_file only in that case. *)
+Definition create_incr_files (d : sdir) (pts : N) (pmax : option N) (csnap : option N) : res created :=
   match sget d FManifest with
   | Some (CBlob _, _) => Err EBadManifest            (* read_manifest_layout(..)? comes first *)
   | ml =>
@@ -273,8 +276,21 @@ Definition create_incr_files (d : sdir) (pts : N) (pmax : option N) : res create
           match ml with
           | Some (CMan m, _) =>
               let segs := merge_segs (m_segs m) (map fst sel) in
-              Ok ((FManifest, CMan (set_segs m segs)) :: map (fun e => (FWal (fst e), fst (snd e))) sel,
-                  max_list (map fst sel), None)
+              match (match m_snap m with
+                     | None => Ok ([], None)
+                     | Some s =>
+                         if optN_eqb csnap (Some s) then Ok ([], None)
+                         else match sget d (FSnap s) with
+                              | Some (c, _) => Ok ([(FSnap s, c)], Some s)
+                              | None => Err ESnapshotMissing
+                              end
+                     end) with
+              | Err e => Err e
+              | Ok (snap_e, sf) =>
+                  Ok (snap_e ++ (FManifest, CMan (set_segs m segs))
+                                :: map (fun e => (FWal (fst e), fst (snd e))) sel,
+                      max_list (map fst sel), sf)
+              end
           | _ => Err ENoManifest
           end
       end
@@ -288,11 +304,31 @@ Fixpoint find_b (st : store) (id : N) : option backup :=
   | b :: r => if b_id b =? id then Some b else find_b r id
   end.
 
+(* the `while chain_snapshot.is_none()` walk over the ancestors' metadata files; an unreadable or
+   missing ancestor ends the walk (model only: so does running out of fuel on a parent cycle) *)
+Fixpoint chain_snapshot (fuel : nat) (st : store) (snap anc : option N) : option N :=
+  match snap with
+  | Some s => Some s
+  | None =>
+      match anc with
+      | None => None
+      | Some a =>
+          match fuel with
+          | O => None
+          | S f => match find_b st a with
+                   | None => None
+                   | Some mb => chain_snapshot f st (b_snapfile mb) (b_parent mb)
+                   end
+          end
+      end
+  end.
+
 Definition create_incremental (st : store) (d : sdir) (parent id ts aux : N) : res backup :=
   match find_b st parent with
   | None => Err EParentMetaMissing
   | Some p =>
-      match create_incr_files d (b_ts p) (b_max_wal p) with
+      match create_incr_files d (b_ts p) (b_max_wal p)
+                              (chain_snapshot (length st) st (b_snapfile p) (b_parent p)) with
       | Err e => Err e
       | Ok (files, mx, sf) => Ok (mkBackup id (Some parent) Incremental ts files true mx sf aux)
       end
@@ -467,8 +503,35 @@ Definition kept (now : N) (p : policy) (listing : list backup) (b : backup) : bo
       end
   end.
 
+Definition young (now : N) (p : policy) (b : backup) : bool := now - b_ts b <? min_age_days p * DAY.
+
+(* Since /repo b41f57f: the keep set (ids) is closed under "parent of a backup that survives":
+     while changed { for b in backups { if to_keep.contains(b.id) || young(b) { to_keep.insert(parent) } } } *)
+Definition keep_step (now : N) (p : policy) (keep : list N) (b : backup) : list N :=
+  if memN (b_id b) keep || young now p b then
+    match b_parent b with
+    | Some pid => if memN pid keep then keep else keep ++ [pid]
+    | None => keep
+    end
+  else keep.
+
+Definition keep_pass (now : N) (p : policy) (listing : list backup) (keep : list N) : list N :=
+  fold_left (keep_step now p) listing keep.
+
+Fixpoint keep_close (fuel : nat) (now : N) (p : policy) (listing : list backup) (keep : list N) : list N :=
+  match fuel with
+  | O => keep
+  | S f => let k' := keep_pass now p listing keep in
+           if Nat.eqb (length k') (length keep) then keep
+           else keep_close f now p listing k'
+  end.
+
+Definition keep_set (now : N) (p : policy) (listing : list backup) : list N :=
+  keep_close (S (length listing + length listing)) now p listing
+             (map b_id (filter (kept now p listing) listing)).
+
 Definition prune_deletes (now : N) (p : policy) (listing : list backup) (b : backup) : bool :=
-  negb (kept now p listing b) && negb (now - b_ts b <? min_age_days p * DAY).
+  negb (memN (b_id b) (keep_set now p listing)) && negb (young now p b).
 
 Definition prune_deleted (now : N) (p : policy) (listing : list backup) : list N :=
   map b_id (filter (prune_deletes now p listing) listing).
@@ -542,6 +605,16 @@ Definition evolvesb (dp : sdir) (pts : N) (pmax : option N) (d : sdir) : bool :=
                        | Some (c, _) => content_eqb c (fst (snd e))
                        | None => false
                        end) (wal_entries d).
+
+(* a snapshot name denotes one content: files present in both directories under a snapshot name agree *)
+Definition snap_stableb (dp d : sdir) : bool :=
+  forallb (fun e => match fst e with
+                    | FSnap s => match sget dp (FSnap s) with
+                                 | Some (c, _) => content_eqb c (fst (snd e))
+                                 | None => true
+                                 end
+                    | _ => true
+                    end) d.
 
 (* compact constructor used by the prune timelines of the correspondence (metadata only) *)
 Definition pbk (id : N) (parent : option N) (k : bkind) (ts : N) : backup :=
